@@ -611,3 +611,188 @@ def check_mirrored_branches(ctx: CheckContext, eng: InvalEngine, rule: str = "MI
                        "" if ok else f"the two direction branches of {f.name} are not mirror images: "
                                      f"`{ast.unparse(st.body[0]).splitlines()[0]}` vs `{ast.unparse(st.orelse[0]).splitlines()[0]}` (one side scans a different row range)")
     return n
+
+
+# =========================================================================================
+# BETWEEN - the rows strictly between the hot and the cold pinch are flattened, all of them, on every path
+# =========================================================================================
+def _norm_plus(e: ast.AST):
+    """(name, offset) for  name | name + k | k + name | name - k ; None otherwise"""
+    if isinstance(e, ast.Name):
+        return e.id, 0
+    if isinstance(e, ast.BinOp) and isinstance(e.op, (ast.Add, ast.Sub)):
+        l, rr = e.left, e.right
+        if isinstance(l, ast.Name) and isinstance(rr, ast.Constant) and isinstance(rr.value, int):
+            return l.id, rr.value if isinstance(e.op, ast.Add) else -rr.value
+        if isinstance(e.op, ast.Add) and isinstance(rr, ast.Name) and isinstance(l, ast.Constant) and isinstance(l.value, int):
+            return rr.id, l.value
+    return None
+
+
+def check_between_pinches(ctx: CheckContext, p: Program, r: Resolver, rule: str = "BETWEEN"):
+    """In the function that looks the pinch rows up (`hot, cold, valid = table.pinch_idx(...)`) and starts the pocket sweeps, the pocket-free column is
+    set to 0 on rows hot+1 .. cold-1: the bounds are exactly range(hot + 1, cold) / [hot + 1 : cold], the store goes through a table accessor, and no
+    return other than the `not valid` exit stands between the lookup and the store."""
+    ctx.rule(rule, "the pocket-free curve is zero strictly between the two pinches: a store of 0 over range(hot+1, cold) (loop or slice, in the function or a "
+                   "helper given both rows) exists, has exactly these bounds, and is not by-passed by an early return")
+    n = 0
+    for f in p.all_funcs:
+        if isinstance(f.node, ast.Lambda) or "gcc" not in f.module.name.rsplit(".", 1)[-1].lower():
+            continue
+        look = None
+        for st in f.node.body:
+            if isinstance(st, ast.Assign) and isinstance(st.targets[0], ast.Tuple) and len(st.targets[0].elts) == 3 and isinstance(st.value, ast.Call) \
+                    and isinstance(st.value.func, ast.Attribute) and st.value.func.attr == "pinch_idx" and all(isinstance(e, ast.Name) for e in st.targets[0].elts):
+                look = st
+        if look is None:
+            continue
+        H, C, V = [e.id for e in look.targets[0].elts]
+        if "hot" not in H.lower() or "cold" not in C.lower():
+            continue
+        # does the function hand both rows on to a sweep?  (otherwise it is not the flattening entry)
+        sweeps = [c for c in body_nodes(f) if isinstance(c, ast.Call) and {H, C} <= {a.id for a in c.args if isinstance(a, ast.Name)} | {k.value.id for k in c.keywords if isinstance(k.value, ast.Name)}]
+        if not sweeps:
+            continue
+
+        def zero_sites(g: FuncInfo, hn: str, cn: str):
+            """(node, lo, hi, kind) of stores of 0 whose row range is written in terms of hn / cn"""
+            out = []
+            for nd in body_nodes(g):
+                if isinstance(nd, ast.For) and isinstance(nd.iter, ast.Call) and isinstance(nd.iter.func, ast.Name) and nd.iter.func.id == "range" and len(nd.iter.args) == 2 \
+                        and isinstance(nd.target, ast.Name):
+                    names = {x.id for a in nd.iter.args for x in ast.walk(a) if isinstance(x, ast.Name)}
+                    if hn in names or cn in names:
+                        for s2 in nd.body:
+                            if isinstance(s2, ast.Assign) and isinstance(s2.value, ast.Constant) and s2.value.value == 0 and isinstance(s2.targets[0], ast.Subscript) \
+                                    and nd.target.id in {x.id for x in ast.walk(s2.targets[0].slice) if isinstance(x, ast.Name)}:
+                                out.append((nd, nd.iter.args[0], nd.iter.args[1], "loop", s2.targets[0]))
+                if isinstance(nd, ast.Assign) and isinstance(nd.value, ast.Constant) and nd.value.value == 0 and isinstance(nd.targets[0], ast.Subscript):
+                    sl = nd.targets[0].slice
+                    parts = sl.elts if isinstance(sl, ast.Tuple) else [sl]
+                    for part in parts:
+                        if isinstance(part, ast.Slice) and part.lower is not None and part.upper is not None:
+                            names = {x.id for x in ast.walk(part) if isinstance(x, ast.Name)}
+                            if hn in names or cn in names:
+                                out.append((nd, part.lower, part.upper, "slice", nd.targets[0]))
+            return out
+
+        sites = [(f, s_) for s_ in zero_sites(f, H, C)]
+        for call in [c for c in body_nodes(f) if isinstance(c, ast.Call)]:
+            for t in r.resolve_call(f, call):
+                if isinstance(t, FuncInfo) and not isinstance(t.node, ast.Lambda) and t is not f:
+                    off = 0
+                    amap = {}
+                    for i, a in enumerate(call.args):
+                        if isinstance(a, ast.Name) and i < len(t.pos_params):
+                            amap[a.id] = t.pos_params[i]
+                    for k in call.keywords:
+                        if k.arg and isinstance(k.value, ast.Name):
+                            amap[k.value.id] = k.arg
+                    if H in amap and C in amap:
+                        sites += [(t, s_) for s_ in zero_sites(t, amap[H], amap[C]) if True]
+                        sites = [(g, s_) if g is not t else (g, s_ + (amap[H], amap[C])) for g, s_ in sites]
+        if not sites:
+            mentions = [nd for nd in body_nodes(f) if isinstance(nd, (ast.Slice, ast.Call)) and {H, C} <= {x.id for x in ast.walk(nd) if isinstance(x, ast.Name)}
+                        and not (isinstance(nd, ast.Call) and nd in sweeps)]
+            if mentions:
+                ctx.info.setdefault("between_undecided", []).append(f"{f.qualname}: rows between the pinches are handled in a form not interpreted")
+                continue
+            n += 1
+            ctx.ob(rule, f"{f.qualname}:exists", f.loc, False,
+                   f"{f.name} looks up the hot and cold pinch rows and sweeps both sides, but no statement sets the pocket-free column to 0 on the rows between "
+                   f"the two pinches: a pocket enclosed by two pinches survives in the pocket-free curve")
+            continue
+        for g, site in sites:
+            nd, lo, hi, kind, tgt = site[:5]
+            hn, cn = (site[5], site[6]) if len(site) > 5 else (H, C)
+            nlo, nhi = _norm_plus(lo), _norm_plus(hi)
+            n += 1
+            ok = nlo == (hn, 1) and nhi == (cn, 0)
+            ctx.ob(rule, f"{g.qualname}:bounds", f"{g.module.relpath}:{nd.lineno}", ok,
+                   "" if ok else f"the rows between the pinches are flattened over {'range(' if kind == 'loop' else '['}{ast.unparse(lo)}{', ' if kind == 'loop' else ' : '}{ast.unparse(hi)}"
+                                 f"{')' if kind == 'loop' else ']'} instead of {hn} + 1 .. {cn} (exclusive): "
+                                 + ("the last row before the cold pinch keeps its pocket value" if nhi == (cn, -1) else "a row that must be flattened is left out or a pinch row is overwritten"))
+        # no early return between the lookup and the first store (other than `if not valid: return`)
+        body = f.node.body
+        i0 = body.index(look)
+        first = None
+        for j in range(i0 + 1, len(body)):
+            if any(any(x is s_[0] for x in ast.walk(body[j])) for g, s_ in sites if g is f) or \
+                    any(isinstance(c, ast.Call) and any(t is g for g, _ in sites if g is not f for t in r.resolve_call(f, c)) for c in ast.walk(body[j])):
+                first = j
+                break
+        if first is not None:
+            for st in body[i0 + 1:first]:
+                for x in ast.walk(st):
+                    if isinstance(x, ast.Return):
+                        owner = st
+                        only_valid = isinstance(owner, ast.If) and {y.id for y in ast.walk(owner.test) if isinstance(y, ast.Name)} <= {V}
+                        n += 1
+                        ctx.ob(rule, f"{f.qualname}:early-return:{norm_stmt(owner.test) if isinstance(owner, ast.If) else 'return'}"[:120], f"{f.module.relpath}:{x.lineno}", only_valid,
+                               "" if only_valid else f"{f.name} can return before the rows between the two pinches are flattened "
+                                                     f"(`{ast.unparse(owner.test)[:80] if isinstance(owner, ast.If) else 'return'}`): on that path a pocket between the pinches survives")
+    return n
+
+
+# =========================================================================================
+# ROUND-LAST - nothing is computed from a table after it has been rounded in place for export
+# =========================================================================================
+def check_round_last(ctx: CheckContext, p: Program, r: Resolver, funcs: List[FuncInfo], rule: str = "ROUND-LAST"):
+    """ProblemTable.round() overwrites the buffer with values rounded to a few decimals (it is done once, to keep the graph payload small).  Every result -
+    targets, pinch temperatures, utility duties - must have been read from the table before that: a value read afterwards carries the rounding error
+    (5e-5 absolute, far above the 1e-6 the targets are specified to) and a residual below it becomes an exact zero, i.e. a spurious pinch."""
+    ctx.rule(rule, "after a table has been rounded in place (X.round(...) as a statement, or a call of a function that does that to its parameter) the function does "
+                   "not read the table's contents again (no X.col / X.loc / X.pinch_* / hand-over to another analysis function)")
+    # functions that round a parameter in place
+    rounds: Dict[FuncInfo, Set[str]] = {}
+    for f in p.all_funcs:
+        if isinstance(f.node, ast.Lambda):
+            continue
+        ps = set(f.pos_params)
+        for st in body_nodes(f):
+            if isinstance(st, ast.Expr) and isinstance(st.value, ast.Call) and isinstance(st.value.func, ast.Attribute) and st.value.func.attr == "round" \
+                    and isinstance(st.value.func.value, ast.Name) and st.value.func.value.id in ps:
+                rounds.setdefault(f, set()).add(st.value.func.value.id)
+    n = 0
+    for f in funcs:
+        if isinstance(f.node, ast.Lambda) or f in rounds:
+            continue
+        # position (statement index in the flattened top-level body, and order inside the statement) of the first rounding per variable
+        first: Dict[str, Tuple[int, int]] = {}
+        body = f.node.body
+        for i, st in enumerate(body):
+            for c in ast.walk(st):
+                if not isinstance(c, ast.Call):
+                    continue
+                if isinstance(c.func, ast.Attribute) and c.func.attr == "round" and isinstance(c.func.value, ast.Name) and isinstance(st, ast.Expr) and st.value is c:
+                    first.setdefault(c.func.value.id, (i, c.col_offset + 10000 * c.lineno))
+                for t in r.resolve_call(f, c):
+                    if isinstance(t, FuncInfo) and t in rounds:
+                        for k, a in enumerate(c.args):
+                            if isinstance(a, ast.Name) and k < len(t.pos_params) and t.pos_params[k] in rounds[t]:
+                                first.setdefault(a.id, (i, c.col_offset + 10000 * c.lineno))
+                        for kw in c.keywords:
+                            if kw.arg in rounds[t] and isinstance(kw.value, ast.Name):
+                                first.setdefault(kw.value.id, (i, c.col_offset + 10000 * c.lineno))
+        for tv, (i0, pos0) in first.items():
+            n += 1
+            bad = None
+            for i, st in enumerate(body[i0:], start=i0):
+                for x in ast.walk(st):
+                    pos = getattr(x, "col_offset", 0) + 10000 * getattr(x, "lineno", 0)
+                    if pos <= pos0:
+                        continue
+                    reads = False
+                    if isinstance(x, ast.Attribute) and isinstance(x.value, ast.Name) and x.value.id == tv and isinstance(x.ctx, ast.Load) \
+                            and (x.attr in ("col", "loc", "iloc", "icol", "data", "to_list") or x.attr.startswith("pinch")):
+                        reads = True
+                    if isinstance(x, ast.Call) and any(isinstance(a, ast.Name) and a.id == tv for a in list(x.args) + [k.value for k in x.keywords]):
+                        tg = [t for t in r.resolve_call(f, x) if isinstance(t, FuncInfo)]
+                        if tg and not any(t in rounds for t in tg) and not any(t.name.startswith("add_target") or t.cls is not None and t.name == "__init__" for t in tg):
+                            reads = True
+                    if reads and bad is None:
+                        bad = x
+            ctx.ob(rule, f"{f.qualname}:{tv}", f"{f.module.relpath}:{body[i0].lineno}", bad is None,
+                   "" if bad is None else f"`{ast.unparse(bad)[:70]}` (line {bad.lineno}) reads table '{tv}' after it was rounded in place at line {body[i0].lineno}: "
+                                          f"the value carries the export rounding (4 decimals) instead of the computed one")
+    return n
